@@ -546,10 +546,17 @@ def gen_hints(rng):
         # single-step state-diff cases
         cfg = {'arch_version': 7, 'have_security_ext': rng.random() < 0.5, 'have_virt_ext': False, 'have_lpae': False,
                'memory_system_architecture': 'PMSA', 'number_of_mpu_regions': 12}
+        sysx = {}
+        if rng.random() < 0.35:
+            # Virtualization Extensions: WFI / WFE executed in a Non-secure PL1/PL0 mode may be trapped to Hyp mode (HCR.TWI / HCR.TWE)
+            cfg.update(have_security_ext=True, have_virt_ext=True, memory_system_architecture='VMSA')
+            sysx = {'scr': rng.choice([1, 1, 1, 0]), 'hcr': rng.getrandbits(2) << 13, 'hvbar': G.LOW + 0x800, 'hsctlr': rng.getrandbits(1) << 30}
         thumb = rng.getrandbits(1)
         mode = rng.choice(G.legal_modes(cfg))
+        if mode == 'hyp':
+            sysx['scr'] = 1
         regs = {'cpsr': G.random_cpsr(rng, cfg, mode=mode, thumb=thumb), 'pc': G.CODE + 4 * rng.randrange(64),
-                'sys': {'sctlr': G.sctlr_value(m=0, u=1, te=thumb)}, 'R': G.random_regfile(rng, cfg), 'spsr': G.random_spsrs(rng, cfg),
+                'sys': dict({'sctlr': G.sctlr_value(m=0, u=1, te=thumb)}, **sysx), 'R': G.random_regfile(rng, cfg), 'spsr': G.random_spsrs(rng, cfg),
                 'event_register': bool(rng.getrandbits(1))}
         seq = [{'hint': rng.choice(HINTS), 'wide': rng.getrandbits(1), 'cond': rng.choice([0xE, 0xE, rng.randrange(14)])} for _ in range(rng.randrange(1, 12))]
         core = {'config': cfg, 'devices': G.std_devices(high=False), 'regs': regs, 'words': [], 'force': None, 'no_poke': []}
@@ -609,9 +616,25 @@ def run_hints(case):
             if b.cores[0].dead:
                 break
             post = M.full_state(arm, hidden=False)
-            diff = [k for k in post if post[k] != pre.get(k) and k not in ('R.PC', 'wfe', 'wfi', 'sys.event_register', 'mem.1')]   # mem.1: the board places the word there
             name = type(arm.executed_opcode).__name__
             site = name[:-2] if name[-2:] in ('A1', 'T1', 'T2') else name
+            # Hyp trap (ARM ARM B1.14.1 / WFE, WFI pseudocode): only from Non-secure modes other than Hyp, only when the instruction would
+            # otherwise wait — a WFE that finds the event register set just clears it
+            cfgd = M.full_config(core['config'])
+            m_pre = pre['cpsr'] & 0x1F
+            nonsec = cfgd['have_security_ext'] and (pre.get('sys.scr', 0) & 1) and m_pre != 0x16
+            passed0 = bool(thumb or h['cond'] == 0xE or _cond_passed(h['cond'], pre['cpsr']))         # (no IT blocks in these runs)
+            if cfgd['have_virt_ext'] and nonsec and m_pre != 0x1a and passed0 and (
+                    (h['hint'] == 'wfi' and (pre.get('sys.hcr', 0) >> 13) & 1) or (h['hint'] == 'wfe' and (pre.get('sys.hcr', 0) >> 14) & 1 and not ev_pre)):
+                if (post['cpsr'] & 0x1F) != 0x1a or post['wfe'] != pre['wfe'] or post['wfi'] != pre['wfi']:
+                    b.violate('hints.state', site, 'hyp_trap_not_taken', '%s in Non-secure mode %#x with HCR=%#x: mode %#x afterwards, wait flags %s/%s' % (
+                        h['hint'], m_pre, pre.get('sys.hcr', 0), post['cpsr'] & 0x1F, post['wfi'], post['wfe']))
+                    break
+                b.cover.add('hint|%s|%s|hyp-trap' % (h['hint'], 'T' if thumb else 'A'))
+                thumb = (post['cpsr'] >> 5) & 1
+                continue
+            placed = ('mem.1', 'mem.0') if cfgd['have_virt_ext'] else ('mem.1',)      # where the board places the word (after a Hyp trap: at the Hyp vector in the low page)
+            diff = [k for k in post if post[k] != pre.get(k) and k not in ('R.PC', 'wfe', 'wfi', 'sys.event_register') + placed]
             if diff:
                 b.violate('hints.state', site, 'state_changed', '%s (word %#x) changed %s' % (h['hint'], w, ', '.join('%s %r->%r' % (k, pre.get(k), post[k]) for k in diff[:3])))
                 break
